@@ -52,16 +52,14 @@ def hexDigit (n : Nat) : Char := if n < 10 then Char.ofNat (48 + n) else Char.of
 def hex4 (n : Nat) : String :=
   String.ofList [hexDigit (n / 4096 % 16), hexDigit (n / 256 % 16), hexDigit (n / 16 % 16), hexDigit (n % 16)]
 
-/-- `json.dumps(s)` (ensure_ascii=True) -/
+/-- `json.dumps(s, ensure_ascii=False)` (fix R2: non-ASCII characters are printed as they are) -/
 def jsonDumps (s : String) : String :=
   "\"" ++ String.join (s.toList.map fun c =>
     let n := c.toNat
     if c == '"' then "\\\"" else if c == '\\' then "\\\\" else if c == '\n' then "\\n" else if c == '\r' then "\\r"
     else if c == '\t' then "\\t" else if n == 8 then "\\b" else if n == 12 then "\\f"
     else if n < 32 then "\\u" ++ hex4 n
-    else if n < 127 || n == 127 then String.singleton c
-    else if n < 0x10000 then "\\u" ++ hex4 n
-    else let m := n - 0x10000; "\\u" ++ hex4 (0xD800 + m / 1024) ++ "\\u" ++ hex4 (0xDC00 + m % 1024)) ++ "\""
+    else String.singleton c) ++ "\""
 
 /-- `_split_words_with_boundaries(line, " -_")` -/
 def splitWords : List Char → List Char → List String
